@@ -3,5 +3,9 @@
     Lemmas1  the inductive invariant `Inv` (thread-local facts + shared facts) and the frame rules
     Lemmas2  `inv_step`: every line of every thread preserves `Inv`; consequences on reachable states
     Lemmas3  ranking function (every schedule terminates), sequential close / restart, server loop
+    Lemmas4  second invariant `Inv2` (starters are the threads beyond the workload, threads waiting at
+             `cRecv` = unread replies, bookkeeping of answered calls) and its frame rules
+    Lemmas5  `inv2_step`: every line preserves `Inv2`
+    Lemmas6  `no_deadlock`, `exactly_one`
 -/
-import SuppModel.Startup.Lemmas3
+import SuppModel.Startup.Lemmas6
